@@ -42,6 +42,7 @@ class Facts:
         self.functions = j["functions"]
         self.classes = j["classes"]
         self.vars = j["vars"]
+        self.enums = j.get("enums", [])
         self.by_id = {}
         for f in self.functions:
             self.by_id.setdefault(f["id"], f)
